@@ -105,6 +105,8 @@ func (e *Exec) doPingResp(mc *MConn, st Step) {
 	}
 	e.advance(d)
 	e.after(nil)
+	e.traceStep = 4*e.stepIdx + 2
+	e.actorBefore = mc.Sess
 	if len(e.Viol) > 0 {
 		return
 	}
